@@ -182,7 +182,7 @@ def run(ctx):
     extras = ["[Unit]\nAfter=a.service\nAfter=\nAfter=b.service c.service\nWants=w.target\nDescription=x y\n", "[Unit]\nRequires=r.service\nBefore=b.target\nWants=\n",
               "[Install]\nWantedBy=default.target\nAlias=al.service\n", "[X-Custom]\nFoo=bar\nFoo=baz\n", "[Service]\nEnvironment=A=1\nEnvironment=B=2\nExecStartPre=/bin/a\nExecStartPre=/bin/b\nRestart=always\n",
               "[Service]\nKillMode=control-group\n", "[Service]\nKillMode=mixed\nKillMode=control-group\n", "[Service]\nType=oneshot\nRemainAfterExit=no\n", "[Service]\nSyslogIdentifier=mine\nNotifyAccess=main\n",
-              "[Service]\nType=notify\nNotifyAccess=exec\n", "[Service]\nWorkingDirectory=/my/wd\n", "[Service]\nType=\n", "[Timer]\nOnCalendar=daily\n"]
+              "[Service]\nType=notify\nNotifyAccess=exec\n", "[Service]\nWorkingDirectory=/my/wd\n", "[Service]\nWorkingDirectory=~\n", "[Service]\nWorkingDirectory=-/srv/app\n", "[Service]\nWorkingDirectory=-~\n", "[Service]\nType=\n", "[Timer]\nOnCalendar=daily\n"]
     for _ in range(ctx.volume(3000, 50000)):
         typ = rng.choice(list(docs.TYPES))
         text = gen_conv.gen_wild_unit(rng, typ) if rng.random() < 0.5 else gen_conv.gen_unit(rng, typ, 0.3)[0]
